@@ -225,6 +225,49 @@ func c02Stanza(g G, kind string, i int, compNS bool) string {
 	}
 }
 
+// features elements as servers send them: any subset of the features the library knows, in any
+// order, next to features it does not know - among them features with the same local name as a
+// known one in another namespace (ejabberd and Prosody advertise both <sm xmlns='urn:xmpp:sm:2'/>
+// and <sm xmlns='urn:xmpp:sm:3'/>)
+func c02Features(g G) string {
+	pool := []string{
+		"<starttls xmlns='" + nsTLS + "'><required/></starttls>",
+		"<starttls xmlns='" + nsTLS + "'/>",
+		"<mechanisms xmlns='" + nsSASL + "'><mechanism>PLAIN</mechanism></mechanisms>",
+		"<mechanisms xmlns='" + nsSASL + "'><mechanism>SCRAM-SHA-1</mechanism><mechanism>PLAIN</mechanism><mechanism>X-OAUTH2</mechanism></mechanisms>",
+		"<bind xmlns='" + nsBind + "'/>",
+		"<bind xmlns='" + nsBind + "'><required/></bind>",
+		"<session xmlns='urn:ietf:params:xml:ns:xmpp-session'><optional/></session>",
+		"<sm xmlns='" + nsSM + "'/>",
+		"<sm xmlns='" + nsSM + "'><optional/></sm>",
+		"<sm xmlns='urn:xmpp:sm:2'/>",
+		"<bind xmlns='urn:example:bind:9'/>",
+		"<session xmlns='unknown:ns'>text</session>",
+		"<mechanisms xmlns='unknown:ns'><mechanism>PLAIN</mechanism></mechanisms>",
+		"<starttls xmlns='unknown:tls'><required/></starttls>",
+		"<compression xmlns='http://jabber.org/features/compress'><method>zlib</method></compression>",
+		"<c xmlns='http://jabber.org/protocol/caps' hash='sha-1' node='http://example.org' ver='abc='/>",
+		"<ver xmlns='urn:xmpp:features:rosterver'/>",
+		"<register xmlns='http://jabber.org/features/iq-register'/>",
+		"<csi xmlns='urn:xmpp:csi:0'/>",
+	}
+	if g.Pct("features-classic", 30) {
+		return "<stream:features><starttls xmlns='" + nsTLS + "'><required/></starttls><mechanisms xmlns='" + nsSASL + "'><mechanism>PLAIN</mechanism></mechanisms><bind xmlns='" + nsBind + "'/><sm xmlns='" + nsSM + "'/>" + c02Tree(g, 2, "unknown:feature") + "</stream:features>"
+	}
+	var b strings.Builder
+	b.WriteString("<stream:features>")
+	k := g.Range("nfeatures", 0, 6)
+	for i := 0; i < k; i++ {
+		if g.Pct("feature-tree", 10) {
+			b.WriteString(c02Tree(g, 2, "unknown:feature"))
+			continue
+		}
+		b.WriteString(pool[g.N("feature", len(pool))])
+	}
+	b.WriteString("</stream:features>")
+	return b.String()
+}
+
 func c02Top(g G, i int, compNS bool) string {
 	switch g.Weighted("top", 30, 15, 20, 3, 2, 2, 2, 2, 1, 1, 4, 4, 2, 2, 1, 1, 1) {
 	case 0:
@@ -234,7 +277,7 @@ func c02Top(g G, i int, compNS bool) string {
 	case 2:
 		return c02Stanza(g, "iq", i, compNS)
 	case 3:
-		return "<stream:features><starttls xmlns='" + nsTLS + "'><required/></starttls><mechanisms xmlns='" + nsSASL + "'><mechanism>PLAIN</mechanism></mechanisms><bind xmlns='" + nsBind + "'/><sm xmlns='" + nsSM + "'/>" + c02Tree(g, 2, "unknown:feature") + "</stream:features>"
+		return c02Features(g)
 	case 4:
 		return "<stream:error><" + []string{"conflict", "host-unknown", "system-shutdown"}[g.N("sterr", 3)] + " xmlns='" + nsStreams + "'/><text xmlns='" + nsStreams + "'>bye</text></stream:error>"
 	case 5:
